@@ -433,7 +433,26 @@ Fixpoint commit_loop (d : dstate) (cid : chunkid) (cls : N) (upd : amap blob) (e
     end
   end.
 
-Definition do_commit (d : dstate) (cid : chunkid) (cls : N) (hosts : list N) (data : list (list enc_tract))
+(* CommitRSChunkCommand.apply (repair of finding F6, commit defd77a): before PutRSChunk, every entry with
+   NewVersion >= 2 must name a live blob's existing tract whose stored version is NewVersion-1 (GetTracts of that one
+   tract: ErrNoSuchBlob / ErrNoSuchTract / else ErrConflictingState); entries with NewVersion < 2 are not checked *)
+Fixpoint commit_precheck (d : dstate) (es : list enc_tract) : option N :=
+  match es with
+  | [] => None
+  | e :: r =>
+    if et_newver e <? 2 then commit_precheck d r else
+    match live_blob d (et_blob e) with
+    | None => Some e_NoSuchBlob
+    | Some b =>
+      match nth_error (b_tracts b) (N.to_nat (et_idx e)) with
+      | None => Some e_NoSuchTract
+      | Some t => if t_version t + 1 =? et_newver e then commit_precheck d r else Some e_ConflictingState
+      end
+    end
+  end.
+
+(* PutRSChunk alone: the command as it was before the repair (kept for the refutation witness of F6) *)
+Definition do_commit_unchecked (d : dstate) (cid : chunkid) (cls : N) (hosts : list N) (data : list (list enc_tract))
   : option (dstate * list N) :=
   match aget (chunk_key cid) (d_chunks d) with
   | Some _ => Some (d, r_err e_ConflictingState)
@@ -449,6 +468,13 @@ Definition do_commit (d : dstate) (cid : chunkid) (cls : N) (hosts : list N) (da
                       (set_add_all (map u32 hosts) (d_tsids d)),
             r_err e_NoError)
     end
+  end.
+
+Definition do_commit (d : dstate) (cid : chunkid) (cls : N) (hosts : list N) (data : list (list enc_tract))
+  : option (dstate * list N) :=
+  match commit_precheck d (concat data) with
+  | Some e => Some (d, r_err e)
+  | None => do_commit_unchecked d cid cls hosts data
   end.
 
 Definition do_rshosts (d : dstate) (cid : chunkid) (hosts : list N) : option (dstate * list N) :=
